@@ -7,16 +7,21 @@ from .. import calg, cstmt, jmodel as J
 from ..cskel import Skel, OPEN, CLOSE
 
 EXPLANATION = (
-    "On the C++ of cvode/src/naunet.cpp.j2 specialised per method and the two odeint files (statement parser, no compilation): R1 every status "
-    "returned by a CVode* call in Solve / HandleError is read (CheckFlag, HandleError argument, comparison) before it is overwritten or the "
-    "function returns; R2 in HandleError `return NAUNET_SUCCESS` is reachable only under `cvflag >= 0` with no later assignment to cvflag, every "
-    "other exit returns NAUNET_FAIL; Solve returns HandleError's result and logs the initial state iff it is NAUNET_FAIL; R3 ladder premises: "
-    "recoverable flags -1..-4 keep the reached state and subtract the elapsed time (dt -= t0), the reset flag -6 restores ab_init_ and dt_init "
-    "(captured once, before the level loop), t0 = 0 and ab = ab_tmp_ precede CVodeReInit(cv_mem_, t0, cv_y_), the last sub-step target "
-    "canonicalises to dt, and CVode reports progress into t0; R4 odeint: the observer throws when step_ > mxsteps_, the thrown type is the type "
-    "Solve catches, the handler sets flag = NAUNET_FAIL, Solve returns flag, integrate_adaptive runs over [0, dt] with that observer; R5 every "
-    "caller of Solve inside the templates tests its result (cvode and odeint Python wrappers agree); R6 (premise of R3) cv_y_ has no storage of its own "
-    "and is pointed at the caller's array before CVodeInit, so the state HandleError writes is the state CVodeReInit restarts from.")
+    "On the C++ of cvode/src/naunet.cpp.j2 specialised per method and the two odeint files (statement parser, no compilation; bare calls of void helpers "
+    "defined in the same file are replaced by their bodies, parameters are taken by position from the function header, guard clauses count as guards): "
+    "R1 every status returned by a CVode* call in Solve / HandleError is read (CheckFlag, HandleError argument, comparison) before it is overwritten or the "
+    "function returns; R2 in HandleError every exit that can return NAUNET_SUCCESS is unreachable for a sample of negative flags under the guards that still "
+    "hold there (conditions evaluated, not matched; a test on a flag written since does not count), the function falls through to NAUNET_FAIL; Solve hands "
+    "HandleError the flag, the state, the interval and the time CVode reached, returns its result and logs the initial state iff it is NAUNET_FAIL; "
+    "R3 ladder premises by symbolic execution of the start of a level for each sampled flag: -1..-4 and -6 reach CVodeReInit(cv_mem_, 0, cv_y_), every other "
+    "negative flag returns NAUNET_FAIL; with G = the target of the last sub-step as a function of the state at the re-initialisation (loop variable at its "
+    "last value), a recoverable flag leaves G = G(level start) - (time reached) and the state reached, the reset flag leaves G = G(function entry) and "
+    "ab_init_, G(function entry) is the requested interval, and CVode reports progress into the time-reached parameter; levels are 1..5; "
+    "R4 odeint: the observer throws exactly when counter > budget (truth table), counts unconditionally and before testing, the thrown type is the type "
+    "Solve catches, Solve returns NAUNET_SUCCESS when the try block completes and NAUNET_FAIL through every handler, integrate_adaptive runs over [0, dt] on the "
+    "vector that is copied back, with an observer built per call from mxsteps_; R5 every caller of Solve inside the templates throws exactly when its result is "
+    "NAUNET_FAIL (cvode and odeint Python wrappers agree); R6 (premise of R3) cv_y_ has no storage of its own and is pointed at the caller's array before "
+    "CVodeInit, so the state HandleError writes is the state CVodeReInit restarts from.")
 ASSUMPTIONS = [
     "CVODE's / Boost.Odeint's own behaviour, floating-point exactness of pow(10, log10(dt)) and the scheduling of failures are not decided",
     "DESIGN.md Appendix D gives the invariant whose premises R2/R3 are",
@@ -55,7 +60,7 @@ def _helpers(sk, but):
             continue
         params = cstmt.params_of(f.header)
         try:
-            cache[f.name] = (short, params, cstmt.parse_body(_ctext(sk, f.body))) if params is not None else None
+            cache[f.name] = (short, params, cstmt.parse_body(cstmt.expand_macros(_ctext(sk, f.body), sk.__dict__.get("_c19_macros", {})))) if params is not None else None
         except cstmt.CStmtError:
             cache[f.name] = None
     return {v[0]: (v[1], v[2]) for k, v in cache.items() if v and k != but}
@@ -66,7 +71,9 @@ def _func(ctx, rel, cfg, fname):
     fs = sk.func(fname)
     if not fs:
         return None
-    text = _ctext(sk, fs[0].body)
+    if "_c19_macros" not in sk.__dict__:
+        sk._c19_macros = cstmt.macro_defs(_ctext(sk, sk.clean))
+    text = cstmt.expand_macros(_ctext(sk, fs[0].body), sk._c19_macros)
     try:
         body = cstmt.inline_calls(cstmt.parse_body(text), _helpers(sk, fname))
     except cstmt.CStmtError as ex:
@@ -339,8 +346,10 @@ def _r3_ladder(ctx, label, F, FLAG, AB, DT, T0):
             if not r or r[0] != "stop":
                 raise cstmt.Unknown(f"with {FLAG} = {v} the ladder is not reached ({r})")
             for lvl in (levels[0], levels[-1]) if levels else (1,):
-                head = cstmt.Sym({k: (k + "__head" if k in W else e) for k, e in pre.s.items()}, {k: (k + "__head" if k in W else e) for k, e in pre.a.items()},
-                                 {FLAG: v, LV: lvl}, stop=lambda st: st is rst)
+                # at the head of a level: what the loop writes has an unknown (named) value, everything else its value from before the loop
+                arrs = {k: k + "__head" for k in W if k not in pre.s}
+                arrs.update({k: (k + "__head" if k in W else e) for k, e in pre.a.items()})
+                head = cstmt.Sym({k: (k + "__head" if k in W else e) for k, e in pre.s.items()}, arrs, {FLAG: v, LV: lvl}, stop=lambda st: st is rst)
                 hs = head.clone()
                 r = head.run(lbody)
                 if r and r[0] == "return":
@@ -661,6 +670,16 @@ BENIGN = [
         {"file": CV, "old": "                break;\n            }\n        }\n", "new": "                break;\n            }\n            ++step;\n        }\n"}]},
     {"name": "parameters-renamed", "edits": [
         {"file": CV, "old": "int Naunet::HandleError(int cvflag, realtype *ab, realtype dt, realtype t0) {\n    if (cvflag >= 0) {", "new": "int Naunet::HandleError(int cvflag, realtype *ab, realtype span, realtype t0) {\n    realtype dt = span;\n    if (cvflag >= 0) {"}]},
+    {"name": "check-and-return-macro", "edits": [
+        {"file": CV, "old": "int Naunet::HandleError(int cvflag,", "new": "#define RETURN_IF_FAILED(flagvar, what)                              \\\n    if (CheckFlag(&flagvar, what, 1, errfp_) == NAUNET_FAIL) { \\\n        return NAUNET_FAIL;                                           \\\n    }\n\nint Naunet::HandleError(int cvflag,"},
+        {"file": CV, "old": "        if (CheckFlag(&cvflag, \"CVodeReInit\", 1, errfp_) == NAUNET_FAIL) {\n            return NAUNET_FAIL;\n        }\n", "new": "        RETURN_IF_FAILED(cvflag, \"CVodeReInit\")\n"},
+        {"file": CV, "old": "    if (CheckFlag(&cvflag, \"CVodeSetMaxNumSteps\", 1, errfp_) == NAUNET_FAIL) {\n        return NAUNET_FAIL;\n    }\n", "new": "    RETURN_IF_FAILED(cvflag, \"CVodeSetMaxNumSteps\");\n"}]},
+    {"name": "flag-classified-by-switch", "file": CV, "old": "        if (cvflag < 0 && cvflag > -5) {\n            for (int i = 0; i < NEQUATIONS; i++) {\n                ab_tmp_[i] = ab[i];\n            }\n            dt -= t0;\n        } else if (cvflag == -6) {\n            // The state may have something wrong\n            // Reset to the initial state and try finer steps\n            for (int i = 0; i < NEQUATIONS; i++) {\n                ab_tmp_[i] = ab_init_[i];\n            }\n            dt = dt_init;\n        } else if (cvflag < 0) {\n",
+     "new": "        switch (cvflag) {\n            case -1:\n            case -2:\n            case -3:\n            case -4:\n                for (int i = 0; i < NEQUATIONS; i++) {\n                    ab_tmp_[i] = ab[i];\n                }\n                dt -= t0;\n                break;\n            case -6:\n                for (int i = 0; i < NEQUATIONS; i++) {\n                    ab_tmp_[i] = ab_init_[i];\n                }\n                dt = dt_init;\n                break;\n            default:\n                break;\n        }\n        if (cvflag < 0 && cvflag != -6 && !(cvflag > -5)) {\n"},
+    {"name": "interval-by-ternary", "edits": [
+        {"file": CV, "old": "            dt -= t0;\n", "new": ""},
+        {"file": CV, "old": "            dt = dt_init;\n", "new": ""},
+        {"file": CV, "old": "        // Reset initial conditions\n        t0 = 0.0;", "new": "        dt = (cvflag == -6) ? dt_init : dt - t0;\n        // Reset initial conditions\n        t0 = 0.0;"}]},
     {"name": "reinit-literal-zero", "file": CV, "old": "        cvflag = CVodeReInit(cv_mem_, t0, cv_y_);", "new": "        cvflag = CVodeReInit(cv_mem_, 0.0, cv_y_);"},
     {"name": "observer-early-return", "file": ODE, "old": "    if (step_ > mxsteps_) {\n        char err[70];", "new": "    if (mxsteps_ >= step_) return;\n    {\n        char err[70];"},
     {"name": "odeint-status-as-bool", "edits": [
